@@ -428,9 +428,12 @@ func c08Invocations(rep *Reporter) int {
 	}
 	// a directory holding only an external test package is loaded as a file-less package
 	files["mid/x_test.go"] = "package mid_test\n"
+	// an ordinary package whose directory name ends in _test (its import path too)
+	files["e2e_test/e2e.go"] = "package e2e\n\ntype Step struct {\n\tName string\n\tArgs []string\n}\n\nfunc same(a, b *Step) bool {\n\treturn deriveEqual(a, b)\n}\n"
 	pkgs := []string{"store", "api", "util", "bill"}
+	const odd = "e2e_test"
 	solo := map[string]string{}
-	for _, p := range pkgs {
+	for _, p := range append(append([]string(nil), pkgs...), odd) {
 		dir := filepath.Join(scratchDir, "c08", "solo-"+p)
 		writePkg(dir, files)
 		r := goderive(dir, "./"+p)
@@ -440,6 +443,10 @@ func c08Invocations(rep *Reporter) int {
 		}
 		solo[p] = readFileOr(filepath.Join(dir, p, "derived.gen.go"), "")
 		removeAll(dir)
+		if solo[p] == "" {
+			rep.Violation("solo-run-writes-nothing|pkg="+p, fmt.Sprintf("goderive ./%s exits 0 but leaves no derived.gen.go although the package holds derive calls", p),
+				map[string]interface{}{"engine": "e2", "files": files, "args": []string{"./" + p}})
+		}
 	}
 	spell := func(p string, how int) string {
 		switch how {
@@ -453,6 +460,7 @@ func c08Invocations(rep *Reporter) int {
 	type inv struct {
 		args []string
 		pk   []string
+		cwd  string // relative to the module root; "" = the root
 	}
 	var invs []inv
 	// every non-empty subset x every ordering x every spelling vector (same spelling for all, and mixed)
@@ -471,7 +479,7 @@ func c08Invocations(rep *Reporter) int {
 					for _, p := range perm {
 						args = append(args, spell(p, how))
 					}
-					invs = append(invs, inv{args, perm})
+					invs = append(invs, inv{args, perm, ""})
 				}
 			}
 			continue
@@ -488,11 +496,11 @@ func c08Invocations(rep *Reporter) int {
 					args = append(args, spell(p, x%3))
 					x /= 3
 				}
-				invs = append(invs, inv{args, perm})
+				invs = append(invs, inv{args, perm, ""})
 			}
 		}
 	}
-	invs = append(invs, inv{[]string{"./..."}, pkgs})
+	invs = append(invs, inv{[]string{"./..."}, pkgs, ""})
 	// the file-less directory named explicitly, at every position among the four packages
 	for pos := 0; pos <= len(pkgs); pos++ {
 		for how := 0; how < 2; how++ {
@@ -506,15 +514,28 @@ func c08Invocations(rep *Reporter) int {
 			if pos == len(pkgs) {
 				args = append(args, spell("mid", how))
 			}
-			invs = append(invs, inv{args, pkgs})
+			invs = append(invs, inv{args, pkgs, ""})
 		}
 	}
+	// every package addressed as "." from inside its own directory, and as ../<dir> from a sibling
+	for _, p := range append(append([]string(nil), pkgs...), odd) {
+		invs = append(invs, inv{[]string{"."}, []string{p}, p})
+		invs = append(invs, inv{[]string{"../" + p}, []string{p}, "mid"})
+	}
+	// the oddly named directory next to each of the others, in both orders and all three spellings; and under ./...
+	for _, p := range pkgs {
+		for how := 0; how < 3; how++ {
+			invs = append(invs, inv{[]string{spell(p, how), spell(odd, how)}, []string{p, odd}, ""})
+			invs = append(invs, inv{[]string{spell(odd, how), spell(p, how)}, []string{p, odd}, ""})
+		}
+	}
+	invs = append(invs, inv{[]string{"./..."}, append(append([]string(nil), pkgs...), odd), ""})
 	parDo(len(invs), func(i int) {
 		iv := invs[i]
 		dir := filepath.Join(scratchDir, "c08", fmt.Sprintf("inv%04d", i))
 		writePkg(dir, files)
 		defer removeAll(dir)
-		r := goderive(dir, iv.args...)
+		r := goderive(filepath.Join(dir, iv.cwd), iv.args...)
 		if r.Exit != 0 {
 			rep.Violation("invocation-variant-fails|"+spellClass(iv.args), fmt.Sprintf("goderive %s fails although each package generates alone: %s", strings.Join(iv.args, " "), head(firstErrorLine(r.Stderr), 200)),
 				map[string]interface{}{"engine": "e2", "files": files, "args": iv.args})
